@@ -774,6 +774,16 @@ func (e *Env) evalCall(n *ECall) (SVal, types.Type, error) {
 		}
 		bits := map[string]int{"wrap64": 64, "wrap32": 32, "wrap16": 16, "wrap8": 8}[id.Name]
 		return Scalar{App(SInt, "mod", a, pow2(bits))}, tInt, nil
+	case "deref":
+		v, t, err := e.eval(n.Args[0])
+		if err != nil {
+			return nil, nil, err
+		}
+		pt, ok := t.Underlying().(*types.Pointer)
+		if !ok || !isStructByValue(pt.Elem()) {
+			return nil, nil, fmt.Errorf("deref needs a pointer to a struct")
+		}
+		return LocV{refOf(v), pt.Elem(), e.st}, pt.Elem(), nil
 	case "heapobj":
 		v, _, err := e.eval(n.Args[0])
 		if err != nil {
